@@ -10,34 +10,34 @@ VERIF = os.path.dirname(os.path.dirname(os.path.abspath(__file__)))
 # property -> (level category, technique, level text, level note, design ref)
 T = {
  "C01": ("exploration", "runtime trace monitor (per-client automaton) over lock-step histories of the real daemon",
-         "Online trace automaton per announced client instance judges every stdout line of the real daemon (ASan/UBSan build) on generated histories with heavy id reuse, re-announcement while live, late/duplicate replies and hook-fired timeouts; held on the histories explored, nothing more.",
+         "Online trace automaton per announced client instance judges every stdout line of the real daemon (ASan/UBSan build) on generated histories with heavy id reuse, re-announcement while live, late/duplicate replies and hook-fired timeouts; held on the histories explored, nothing more. The module interface no shipped module uses is driven through a fixture module (site_api) loaded by the real daemon and compared line for line with an executable model of the core; the differences that concern this property are taken here.",
          "Trusts the guarded sync pseudo-command for attributing output to input lines; message grammar taken from the daemon's own call sites.", "4/C01"),
  "C02": ("exploration", "runtime trace monitor (one-sided acceptance oracle) over enumerated event orders with hook-fired timeouts",
-         "Every D/R line emitted by the real daemon is judged against the input history (required data, unanswered queries, +! without account, NO replies) over all arrival orders of the data items x service tables x reply scripts, timeout/hurry-up inserted at every position; random histories with SIGUSR1 reloads; service tables of 31-40 services; directed reload scripts; real-timer id re-use judged by a one-sided clock oracle.",
+         "Every D/R line emitted by the real daemon is judged against the input history (required data, unanswered queries, +! without account, NO replies) over all arrival orders of the data items x service tables x reply scripts, timeout/hurry-up inserted at every position; random histories with SIGUSR1 reloads; service tables of 31-40 services; directed reload scripts; real-timer id re-use judged by a one-sided clock oracle. The module interface no shipped module uses is driven through a fixture module (site_api) loaded by the real daemon and compared line for line with an executable model of the core; the differences that concern this property are taken here.",
          "Required items are read from the policy line the daemon itself prints; timeouts are fired through the guarded hook exactly as the one-shot timer would.", "4/C02"),
  "C03": ("exploration", "runtime trace monitor (bounded-progress oracle evaluated after every step) + stats cross-check",
-         "After every input line the monitor checks that no open client satisfies all release conditions without a verdict in that same step; histories weight late/duplicate/unexpected replies, repeated passwords, timeouts; daemon crash counts as everybody stuck; bursts of 40-700 clients written in one piece on the unhooked channel are judged when the daemon sleeps in epoll_wait with its input drained (read from /proc and the pipe, not a deadline).",
+         "After every input line the monitor checks that no open client satisfies all release conditions without a verdict in that same step; histories weight late/duplicate/unexpected replies, repeated passwords, timeouts; daemon crash counts as everybody stuck; bursts of 40-700 clients written in one piece on the unhooked channel are judged when the daemon sleeps in epoll_wait with its input drained (read from /proc and the pipe, not a deadline). Half of the bursts run over ONE socket that is the daemon's standard input and output (as under an IRC server) with a reader who falls behind. The module interface no shipped module uses is driven through a fixture module (site_api) loaded by the real daemon and compared line for line with an executable model of the core; the differences that concern this property are taken here.",
          "Bounded form of liveness as the statement itself gives it (same step); generator restricted to unambiguous replies and passwords.", "4/C03"),
  "C04": ("exploration", "differential runtime monitoring: same history with and without stray replies, outputs compared step by step",
          "Pairs of real-daemon runs that differ only by inserted stray replies/unlinked notices (stale serial, unknown/not-awaited service, malformed or near-miss tag) must produce identical output; any output in the step of the stray line is a violation; directed slot-reuse (reload) and serial-wrap (2^8..2^16 connections) scenarios; tables of 33-64 services with replies from the ones the daemon refused, judged by the trace monitor on the sanitized and the plain build.",
          "Stray-ness is computed from the awaiting pairs observed in the base run; tags that strtol/strtoul would read as a live tag are not generated.", "4/C04"),
  "C05": ("exploration", "runtime trace monitor on verdict / relay content",
-         "Trace rules tie each k/R/D/M/C line of the real daemon to the reply that caused it (text byte-for-byte, account only from awaited login-type services of this instance, class from the reference rule evaluator, +x when hiding was requested).",
+         "Trace rules tie each k/R/D/M/C line of the real daemon to the reply that caused it (text byte-for-byte, account only from awaited login-type services of this instance, class from the reference rule evaluator, +x when hiding was requested). The module interface no shipped module uses is driven through a fixture module (site_api) loaded by the real daemon and compared line for line with an executable model of the core; the differences that concern this property are taken here.",
          "Weakest reading of the +x clause; reply texts limited to printable ASCII within the line limit.", "4/C05"),
  "C06": ("exploration", "runtime trace monitor on query timing and content",
-         "Per client and configured service: no query before the protocol's prerequisites (or H), a query in the very step they become complete, content equal to the protocol format filled with the client's own fields cut to the documented limits, malformed passwords never forwarded; all arrival orders x protocols x boundary-length fields.",
+         "Per client and configured service: no query before the protocol's prerequisites (or H), a query in the very step they become complete, content equal to the protocol format filled with the client's own fields cut to the documented limits, malformed passwords never forwarded; all arrival orders x protocols x boundary-length fields. Bursts of complete clients (half of them over a shared socket with a slow reader) are judged at quiescence: the drone check was asked about each, once.",
          "User info is rendered with the two parameters the daemon's parser reads (recorded assumption).", "4/C06"),
  "C07": ("exploration", "differential runtime monitoring: solo run vs many interleavings, per-client projection; table audit hook",
-         "Each client script is run alone, then merged with others in many order-preserving interleavings; the projection of the daemon's output onto each client (serial renumbered) must equal the solo conversation; the guarded audit hook checks the request table's structure; directed sets around reloads and id re-use; real 2 s request timers next to each other judged by a one-sided clock oracle.",
+         "Each client script is run alone, then merged with others in many order-preserving interleavings; the projection of the daemon's output onto each client (serial renumbered) must equal the solo conversation; the guarded audit hook checks the request table's structure; directed sets around reloads and id re-use; real 2 s request timers next to each other judged by a one-sided clock oracle. Bursts of clients given the same lines (half of them over a shared socket with a slow reader): the daemon says the same about each.",
          "Replies are addressed symbolically (n-th query to service s) so scripts are interleaving-independent.", "4/C07"),
  "C08": ("exploration", "sanitizers (ASan+UBSan+LSan) + exit-status/hang watchdog + differential (chunking, junk) on hostile byte streams",
          "Grammar-aware hostile streams, every/sampled prefixes (peer death), read-chunk segmentations via the guarded chunk hook, transient read errors injected by an LD_PRELOAD shim, real-timer interruptions (1.6 s and 11.3 s, the latter so that statistics report requests older than ten seconds), streams interrupted by a SIGUSR1 that re-lists the modules, dense bursts of short lines, and junk-line insertion; hostile streams and odd rule tables on the unsanitized build under valgrind memcheck; the well-formed workloads of C11 / C12 / C06 and random histories under this oracle alone; oracle = clean exit, no sanitizer report, no hang, identical treatment of the good lines.",
          "A clean sanitizer run is not memory safety (non-adjacent/intra-object overflows are missed); bounded stream sizes.", "4/C08"),
  "C09": ("exploration", "runtime monitor: output grammar + independent address parser on the unhooked channel",
-         "Every stdout line from the banner on must match one production of the message grammar; client messages must carry the announced id, an address text that Python's ipaddress reads as the announced value, and the announced port; run with no hook commands and with warning/error-producing events and several logs sections.",
+         "Every stdout line from the banner on must match one production of the message grammar; client messages must carry the announced id, an address text that Python's ipaddress reads as the announced value, and the announced port; run with no hook commands and with warning/error-producing events and several logs sections. The module interface no shipped module uses is driven through a fixture module (site_api) loaded by the real daemon and compared line for line with an executable model of the core; the differences that concern this property are taken here.",
          "Grammar extracted from the iauth_send call sites; debug mode excluded by the statement.", "4/C09"),
  "C10": ("exploration", "runtime counting monitor vs `? stats` + ASan/LSan at exit + real-timer runs",
-         "A model set of live clients is compared with the daemon's reported 'in use' count at random points of long histories (thousands of clients, id reuse, duplicate announcements); end of input must give exit 0 with no leak and no use-after-free, including runs with real 1-second timers.",
+         "A model set of live clients is compared with the daemon's reported 'in use' count at random points of long histories (thousands of clients, id reuse, duplicate announcements); end of input must give exit 0 with no leak and no use-after-free, including runs with real 1-second timers. One long pipelined history runs over a shared socket with a slow reader. The module interface no shipped module uses is driven through a fixture module (site_api) and compared line for line with an executable model of the core: request counters and callback counts are taken here.",
          "LeakSanitizer decides 'released'; real-timer runs use wall-clock waits only to let timers expire, never as verdicts.", "4/C10"),
  "C11": ("exploration", "reference-model monitor: Python rule evaluator vs class field of the real daemon's verdicts",
          "Random rule tables (names whose ASCII order differs from case-insensitive order, all criteria subsets, CIDR/wildcard masks) x probe clients built to hit and just-miss each criterion; the class on D/R and the U upgrade must equal the reference model's.",
@@ -49,19 +49,19 @@ T = {
          "irc_check_mask vs a bit-by-bit oracle on boundary-focused and (thorough) exhaustive per-group differences at every length; grammar-derived mask texts with independently computed (bits, network); all short strings over the address alphabet, mutated seeds and libFuzzer-generated strings in exact-size heap buffers in all four call modes under ASan+UBSan; agreement with inet_pton where both accept.",
          "IPv4 masks count from bit 96, as the repository's tests state.", "4/C13"),
  "C14": ("fault_enumeration", "fault enumeration (every truncation point / byte substitution) under sanitizers with before/after dump and hook-log oracle",
-         "Valid generated files truncated at every byte and with hostile single-byte substitutions, loaded on top of several prior configurations in a harness linking the unmodified config code: no sanitizer report, termination, and on a reported error an unchanged live-tree dump and an empty hook log; a few files carry modification times in the future or far past.",
+         "Valid generated files truncated at every byte and with hostile single-byte substitutions, loaded on top of several prior configurations in a harness linking the unmodified config code: no sanitizer report, termination, and on a reported error an unchanged live-tree dump and an empty hook log; a few files carry modification times in the future or far past. Read faults injected into the configuration file's fread()/read() calls (cut by a signal, I/O error part-way, file shorter than fstat said, stale errno on an empty file): the load terminates and a reported error leaves tree and hook log untouched.",
          "Files <= 4 KiB; parser leaks on error paths are counted, not judged.", "4/C14"),
  "C15": ("exploration", "runtime monitor: expected tree by construction + differential vs fresh process + hook log, under ASan/LSan",
-         "Sequences of valid files over a small name/type universe with registrations before/between/after loads: values = last file or default, no unregistered leftovers, dump equals that of a fresh process on the last file, idempotent reload silent, hooks delivered on effective change, as many file descriptors open after a history as before it.",
+         "Sequences of valid files over a small name/type universe with registrations before/between/after loads: values = last file or default, no unregistered leftovers, dump equals that of a fresh process on the last file, idempotent reload silent, hooks delivered on effective change, as many file descriptors open after a history as before it. A load that succeeds although the file read misbehaved once (injected EINTR / EIO / short read) must give the tree of the whole file.",
          "Spurious hooks on changed content are tolerated.", "4/C15"),
  "C16": ("exploration", "round-trip runtime monitor: generated tree -> random admissible rendering -> parse -> dump comparison; feature attribution",
          "Random trees rendered with independently toggled layout features (quoting, escapes, list forms, terminators, comments, whitespace, repeats) must dump as the tree; typed values compared with their arithmetic meaning; unparsable typed values must leave the previous value in force.",
          "Grammar reference is the comment at the top of doc/iauthd-c.conf.example; NUL excluded.", "4/C16"),
  "C17": ("exploration", "differential runtime monitoring: reloaded daemon vs freshly started daemon on the same probes (real SIGUSR1)",
-         "For (old,new) configuration pairs covering add/remove/change-in-place of services and rules, a daemon reloaded by a real SIGUSR1 must treat a probe set exactly like a daemon started on the new file (files overwritten in place, renamed into place, renamed with an old modification time); input already queued when the reload happens is judged by the order of lines in the output: old rules before the guarded reload marker, new rules after it.",
+         "For (old,new) configuration pairs covering add/remove/change-in-place of services and rules, a daemon reloaded by a real SIGUSR1 must treat a probe set exactly like a daemon started on the new file (files overwritten in place, renamed into place, renamed with an old modification time, installed by re-pointing a symbolic link in the -f path, or after a first SIGUSR1 that failed for want of file descriptors); input already queued when the reload happens is judged by the order of lines in the output: old rules before the guarded reload marker, new rules after it.",
          "Reload completion observed through the guarded marker hook; pre-reload clients are finished or disconnected first.", "4/C17"),
  "C18": ("exploration", "reference-model monitor of the routing table vs destination files read back",
-         "Random logs sections (all operators, comma lists, *, invalid entries, shared destinations) and reload sequences; one uniquely numbered message per (facility, severity); file membership must equal the model's, lines complete and attributed, the section as dumped after use equal to the section as written; one destination may be unwritable (/dev/full).",
+         "Random logs sections (all operators, comma lists, *, invalid entries, shared destinations) and reload sequences; one uniquely numbered message per (facility, severity); file membership must equal the model's, lines complete and attributed, the section as dumped after use equal to the section as written; one destination may be unwritable (/dev/full). In some cases no log file can be written for one round (RLIMIT_FSIZE 0) and then can again: the following round is all due.",
          "Severity lists without empty items; fatal messages emitted in forked children.", "4/C18"),
  "C19": ("exploration", "complete shape-graph exploration + long random sequences against a sorted-array model with structural audit, under ASan/UBSan/LSan",
          "Breadth-first exploration of every reachable splay-tree shape over universes of 1..7 keys applying every operation from every shape; long random sequences per stock comparator including extreme ints; sets of 1500-60000 keys filled in key order and operated on at the far end; comparator laws; after every operation result vs model, structural audit, cleanup exactly-once accounting.",
